@@ -257,6 +257,7 @@ def check_steps(r, idx):
     _step5(r, idx, get('__step5'), get('__convert_path'))
     _scans(r, idx, meth)
     _resets(r, idx, get('__clear_covers'), get('__erase_primes'))
+    _prime_lifetime(r, idx, meth)
 
 
 # ------------------------------------------------------------------------ step 6
@@ -1109,6 +1110,69 @@ def _scans(r, idx, meth):
                     lib.loc(fi, node), expected='C[i][j] == 0 and not row_covered[i] and not col_covered[j]')
         if not bad:
             r.ok(construct, 'zero with uncovered row and uncovered column', lib.loc(fi, node))
+
+
+
+def _prime_lifetime(r, idx, meth):
+    """Primes live from step 4 over step 6 back to step 4 until step 5 has built its alternating path; they are erased exactly
+    in step 5 after the path is complete.  Erasing them anywhere on the 4 -> 6 -> 4 cycle (or in step 5 before the last
+    __find_prime_in_row) destroys the path step 5 follows."""
+    label = 'Munkres: lifetime of primes'
+    from . import c06 as _c06
+    try:
+        holder, table, steps = _c06._step_table(idx)
+    except AnalysisError:
+        steps = {k: '__step%d' % k for k in range(1, 7)}
+
+    def reach(start):
+        seen, work = [], [start]
+        while work:
+            m = work.pop()
+            if m in seen or m not in meth:
+                continue
+            seen.append(m)
+            sn = meth[m].params[0] if meth[m].params else None
+            for n in walk_own(meth[m].node):
+                if isinstance(n, ast.Call) and cm.is_self_attr(n.func, sn) and n.func.attr in meth and n.func.attr != '__erase_primes':
+                    work.append(n.func.attr)
+        return seen
+    cycle = []
+    for k in (4, 6):
+        if k in steps:
+            cycle += [m for m in reach(steps[k]) if m not in cycle]
+    bad = False
+    for m in cycle:
+        fi = meth[m]
+        sn = fi.params[0] if fi.params else None
+        for n in walk_own(fi.node):
+            if isinstance(n, ast.Call) and cm.is_self_attr(n.func, sn, '__erase_primes'):
+                bad = True
+                r.violation(label, 'Munkres.%s calls __erase_primes: this method runs on the step 4 -> step 6 -> step 4 cycle, during which '
+                            'the primes found so far must survive for the alternating path of step 5; erasing them makes step 5 follow a '
+                            'missing prime (wrong matching or IndexError)' % m, lib.loc(fi, n),
+                            expected='primes erased only in step 5, after the path conversion')
+            if isinstance(n, ast.Assign) and len(n.targets) == 1 and isinstance(n.targets[0], ast.Subscript) \
+                    and isinstance(n.targets[0].value, ast.Subscript) and cm.is_self_attr(n.targets[0].value.value, sn, 'marked') \
+                    and nf.const_value(n.value, None) == 0:
+                bad = True
+                r.violation(label, 'Munkres.%s clears a mark (`%s`) on the step 4 -> step 6 -> step 4 cycle: stars and primes must survive '
+                            'until step 5' % (m, short(n)), lib.loc(fi, n))
+    if 5 in steps and steps[5] in meth:
+        fi = meth[steps[5]]
+        sn = fi.params[0]
+        cfg = cfg_of(fi.node)
+        er = [c for c in lib.calls_named(fi.node, '__erase_primes') if cm.is_self_attr(c.func, sn)]
+        fp = [c for c in lib.calls_named(fi.node, '__find_prime_in_row') if cm.is_self_attr(c.func, sn)]
+        if er and fp:
+            en = [x for c in er for x in cfg.nodes_containing(c)]
+            fn_ = [x for c in fp for x in cfg.nodes_containing(c)]
+            if cfg.reaches(en, fn_):
+                bad = True
+                r.violation(label, 'in step 5 __find_prime_in_row can run after __erase_primes: the path is extended over primes that no '
+                            'longer exist', lib.loc(fi, er[0]), expected='erase after the path is complete')
+    if not bad:
+        r.ok(label, 'no erasure on the 4 -> 6 -> 4 cycle (%s); step 5 erases after its path is built' % ', '.join(sorted(cycle)),
+             meth[steps.get(4, '__step4')].loc if steps.get(4, '__step4') in meth else '')
 
 
 def _resets(r, idx, cc, ep):
